@@ -133,7 +133,15 @@ def run(ctx):
     ok, rng = False, None
     for l in loops:
         lo, hi = RS(l.iter.args[0]), RS(l.iter.args[1])
-        aff = C.affine(rflow.subst(l.iter.args[1]))
+        hi_e = rflow.subst(l.iter.args[1])
+        # range(a, a + max(n, 0)) is range(a, a + n): a non-positive count gives the empty range either way
+        if isinstance(hi_e, ast.BinOp) and isinstance(hi_e.op, ast.Add):
+            for base_, cnt_ in ((hi_e.left, hi_e.right), (hi_e.right, hi_e.left)):
+                mm = pm.match("max(M_n, 0)", cnt_) or pm.match("max(0, M_n)", cnt_)
+                if mm is not None and U(base_) == lo:
+                    hi_e = ast.BinOp(left=base_, op=ast.Add(), right=mm["M_n"])
+                    hi = U(hi_e)
+        aff = C.affine(hi_e)
         terms = [k for k in aff if k != 1]
         hi_ok = len(terms) == 1 and aff[terms[0]] == 1 and aff.get(1, 0) == 1 and terms[0].startswith("int(") \
             and "['range'][1]['name']" in terms[0]
